@@ -47,7 +47,7 @@ def c06OpConvolve : Rd String := do
   let aps ← listOf c06ReadAp
   let rs ← c06RebinOrThrow flt nus
   if aps.any (fun ap => ap.1.length ≠ rs.length ∨ ap.2.length ≠ rs.length) then throw "shape-mismatch"
-  let out := aps.map (fun ap => s!"{showRat (convolve ap.1 rs)} {showRat (convolveVar ap.2 rs)}")
+  let out := aps.map (fun ap => s!"{showRat (broadband flt nus ap.1)} {showRat (broadbandVar flt nus ap.2)}")
   pure (" ".intercalate (toString aps.length :: out))
 
 def handleC06 (op : String) : Option (Rd String) :=
